@@ -162,6 +162,32 @@ def clause_failure_record(prog, rep):
     rep.floor("failure-record-keeps-link", "Failed-record constructions", n, 1)
 
 
+def clause_own_commit_pending(prog, rep):
+    """the 'merge my pending commit' shortcut is taken only for an own *commit* echo, never for an own application message"""
+    n = 0
+    for f in prog.nontest_fns(("mdk_core",)):
+        for bb, s in f.aggregates("Error", "OwnCommitPending"):
+            n += 1
+            ok_ct = ok_pc = False
+            for w in A.control_dependent_switches(f, bb):
+                l = A._opl(f.term(w)["discr"])
+                dep, calls, consts = f.depends_on(l)
+                cs = list(consts)
+                for _, k in consts:
+                    if isinstance(k, dict) and "promoted" in k and k["promoted"] < len(f.promoted):
+                        cs += [(0, it) for it in f.promoted[k["promoted"]]]
+                if any(isinstance(k, dict) and k.get("variant") == "Commit" and last_seg(k.get("agg")) == "ContentType" for _, k in cs) \
+                        and any(c.name == "content_type" for c in calls):
+                    ok_ct = True
+                if any(c.name == "pending_commit" and last_seg(c.self_adt) == "MlsGroup" for c in calls):
+                    ok_pc = True
+            rep.check(ok_ct and ok_pc, "own-commit-shortcut", "Error::OwnCommitPending/decision",
+                      "OwnCommitPending is raised only when the echoed event is a Commit and a pending commit exists",
+                      "OwnCommitPending no longer depends on %s: the echo of an own application message while a commit is pending merges that "
+                      "commit (epoch advances on a mere re-delivery)" % ("the content type being Commit" if not ok_ct else "pending_commit()"), f.loc())
+    rep.floor("own-commit-shortcut", "constructions of Error::OwnCommitPending", n, 1)
+
+
 def clause_state_writes(prog, rep):
     core = K.core_scope(prog)
     n = 0
@@ -193,6 +219,7 @@ def run(ctx, rep):
     rep.clause("C07.1 the checked dedup lookup dominates every state-touching call of process_message")
     rep.clause("C07.2 dedup state table (symbolic exploration per stored state): Failed / EpochInvalidated end the call early with an Ok result and no write; other states continue")
     rep.clause("C07.3 the MIP-03 comparator is irreflexive (same commit is not better than itself) — decision table shared with C01")
+    rep.clause("C07.6 the own-pending-commit shortcut requires ContentType::Commit and a pending commit")
     rep.clause("C07.4 a rewritten failure record keeps the message_event_id of the existing record")
     rep.clause("C07.5 mdk-core writes only Created/Processed into messages; invalidation and retry marking run only after a successful rollback")
     rep.not_decided = "MLS-state equality after replays (OpenMLS generation handling), behaviour over repetition counts"
@@ -202,5 +229,8 @@ def run(ctx, rep):
     dedup = clause_dedup_first(prog, rep, pm)
     clause_state_table(prog, rep, pm, dedup)
     c01.clause_comparator(prog, rep)
+    c01.clause_snapshot_args(prog, rep)
+    c01.clause_hydrated_incumbent(prog, rep)
     clause_failure_record(prog, rep)
+    clause_own_commit_pending(prog, rep)
     clause_state_writes(prog, rep)
